@@ -25,7 +25,14 @@ RULE = ('case index -> cell kind (orthogonal / mildly tilted / tilted exactly to
         'along a longer one, triangular or rotated; in flat and skew cells a +-1 combination of the PERIODIC cell '
         'vectors of the case is shorter than every cell vector) x 8 periodicity settings x 8 call shapes '
         '(one-one, one-many, many-one, many-many, list/tuple, memory layouts, System index forms, displacement) '
-        'by mixed radix; origin class (0, O(L), O(1e3 L)) and length scale (1, 1e-3, 1e3) rotate with the round; '
+        'by mixed radix; origin class (0, O(L), O(1e3 L)) rotates with the round; the length scale rotates over 1e-10 (a '
+        'cell of a few angstrom written in metres), 1e-8 (cm), 1e-7 (mm), 1e-4, 1e-3, 1e-1 (nm), 1, 1e2 (pm), 1e3, 1e4 '
+        'so that every (periodicity, call shape) of a round meets all ten; '
+        'a second group crosses cells with STRUCTURED ZERO PATTERNS (upper triangular, lower triangular with any subset '
+        'of tilts, diagonal with either sign pattern, permuted diagonal, row/column-permuted triangles, one vector '
+        'along a Cartesian axis / two in a coordinate plane / 2x2 block, one, two or three exact zeros in an otherwise '
+        'general matrix; tilts mild / exactly 0.5 / beyond) x 8 periodicity settings x the same 8 call shapes, scales '
+        'rotating likewise, the arrangement inside a kind moving against both periodicity and call shape; '
         'inside a case the pairs rotate over 10 classes (inside, short separation wrapped across faces, on faces, on '
         'corners, exactly half a cell apart, one outside, both outside up to +-5 cells, lattice image of the same site, '
         'direct separation = a shortest +-1 combination s of the cell vectors +- an offset of 1e-6..0.2 |s|, direct '
@@ -36,6 +43,8 @@ RULE = ('case index -> cell kind (orthogonal / mildly tilted / tilted exactly to
 ASSUMPTIONS = ['cells are right-handed with smallest perpendicular width >= 0.15 L (>= 0.06 L for the flat / needle / skew kinds; '
                'keeps the exhaustive search small)',
                'comparison bound 64 eps (|p0|+|p1|+3L); nearest-image distances within 4 bounds of w_min/2 are exempt (counted)',
+               'every bound of the oracle is relative to the cell (L, |p|, relative coordinates); nothing is compared against an '
+               'absolute length, so the same clauses are decided at every scale from 1e-10 to 1e4',
                'a point counts as inside the cell when its relative coordinates are in [-1e-9, 1+1e-9]',
                'the nearest-image clause is asserted only inside the guard the property states; outside it only '
                'lattice membership, the 27-candidate bound and |dvect| = dmag are asserted',
@@ -557,7 +566,7 @@ def run(ctx):
     asan = ctx.flavour == 'asan'
     rounds = ctx.pick(3, 3 if asan else 24)
     n_cases = GEN.NCOMBO * rounds
-    nz_cases = GEN.NZCOMBO * ctx.pick(2, 2 if asan else 12)
+    nz_cases = GEN.NZCOMBO * ctx.pick(2, 2 if asan else 9)
     npairs = ctx.pick(16, 16 if asan else 48)
     ST.sample_outside = 2
 
@@ -639,6 +648,74 @@ def run(ctx):
     for sc in ('(3,)x(3,)', '(3,)x(N,3)', '(1,3)x(N,3)', '(N,3)x(3,)', '(N,3)x(1,3)', '(N,3)x(N,3)', '(0,3)x(0,3)', '(1,3)x(1,3)'):
         rec.floor('shape:dvect:' + sc, 5)
         rec.floor('shape:dmag:' + sc, 5)
+    # ---- length scales: every clause is evaluated at every scale through every entry point.  rows = rows judged by
+    # lattice / periodic-only / min27 (dvect-vs-dmag: by |dvect| = dmag); guard = rows judged by the nearest-image
+    # clause; image-needed = rows whose answer is NOT the direct separation.  Floors are ~1/3 of the smallest count of
+    # ONE build flavour over seeds 0..5 at the quick tier's size.
+    per_scale = {'dvect': (3000, 800, 2000), 'dmag': (2000, 600, 1500), 'System.dvect': (1000, 250, 800),
+                 'System.dmag': (1000, 250, 800), 'displacement[final]': (300, 50, 120), 'displacement[initial]': (150, 50, 70)}
+    for sc in GEN.SCALES:
+        sn = GEN.scale_name(sc)
+        rec.floor('class:scale:' + sn, 250)
+        for shape in GEN.SHAPES:
+            rec.floor('class:scale:' + sn + ':shape=' + shape, 30)
+        for ep, (nrows, nguard, nimg) in per_scale.items():
+            rec.floor(f'rows:{ep}:scale={sn}', nrows)
+            rec.floor(f'guard:{ep}:scale={sn}', nguard)
+            rec.floor(f'image-needed:{ep}:scale={sn}', nimg)
+        rec.floor(f'rows:dvect-vs-dmag:scale={sn}', 1000)
+        rec.floor(f'image-needed:dvect-vs-dmag:scale={sn}', 700)
+    # ---- structured zero patterns: generated in every arrangement, with every periodicity setting and call shape,
+    # judged through every entry point, and hostile to a "no tilt" shortcut (axis-wrap-wrong: wrapping each Cartesian
+    # component on its own gives a wrong length) where the arrangement allows that at all
+    for kind in GEN.ZKINDS:
+        for pbc in GEN.PBCS:
+            rec.floor('class:zcell:' + kind + ':pbc=' + GEN.pbc_name(pbc), 16)
+        for shape in GEN.SHAPES:
+            rec.floor('class:zcell:' + kind + ':shape=' + shape, 16)
+    for sub in GEN.TRI_SUBSETS:
+        rec.floor('class:zpattern:upper:' + '+'.join('%d%d' % GEN.UPPER_POS[k] for k in sub), 15)
+        rec.floor('class:zpattern:lower:' + '+'.join('%d%d' % GEN.LOWER_POS[k] for k in sub), 15)
+    for sg in GEN.DIAG_SIGNS:
+        rec.floor('class:zpattern:diag:' + ''.join('+' if x > 0 else '-' for x in sg), 30)
+    for perm in GEN.PERMS6[1:]:
+        rec.floor('class:zpattern:perm-diag:%d%d%d' % perm, 20)
+        for tri in ('upper', 'lower'):
+            rec.floor('class:zpattern:perm-tri:%s:rows%d%d%d' % ((tri,) + perm), 8)
+    for variant in ('2x2', 'axis-vector', 'plane-vectors'):
+        for col in range(3):
+            rec.floor('class:zpattern:block:%s:axis%d' % (variant, col), 10)
+    for r in range(3):
+        for c in range(3):
+            rec.floor('class:zpattern:onezero:%d%d' % (r, c), 12)
+    rec.floor('class:zpattern:fewzero:2', 60)
+    rec.floor('class:zpattern:fewzero:3', 60)
+    for zc, m in (('diagonal', 10), ('upper-triangular', 10), ('lower-triangular', 10), ('permuted-diagonal', 10), ('other-zeros', 40)):
+        rec.floor('displacement:final-cell-zeros:' + zc, m)
+    zrows = {'dvect': (4000, 1700, 12000, 9000, 9000), 'dmag': (2800, 1100, 10000, 7000, 3800),
+             'System.dvect': (1600, 640, 6000, 4000, 2000), 'System.dmag': (1600, 640, 6000, 4000, 2000),
+             'displacement[final]': (340, 170, 170, 670, 2300), 'displacement[initial]': (210, 85, 680, 500, 380)}
+    zwrong = {'dvect': (400, 3400, 2800, 3000), 'dmag': (270, 3000, 2200, 1500), 'System.dvect': (110, 1700, 1200, 750),
+              'System.dmag': (110, 1700, 1200, 750), 'displacement[final]': (30, 28, 150, 600),
+              'displacement[initial]': (12, 160, 110, 85), 'dvect-vs-dmag': (130, 1300, 950, 700)}
+    for zc in ('diagonal', 'upper-triangular', 'lower-triangular', 'permuted-diagonal', 'other-zeros', 'full'):
+        rec.floor('class:zeros:' + zc, 100)
+    for ep, (ndiag, nup, nlow, noth, nfull) in zrows.items():
+        for zc, m in (('diagonal', ndiag), ('permuted-diagonal', nup // 2 if ep.startswith('disp') else nup), ('upper-triangular', nup),
+                      ('lower-triangular', nlow), ('other-zeros', noth), ('full', nfull)):
+            rec.floor(f'zeros:{ep}:{zc}', m)
+    for ep, (nup, nlow, noth, nfull) in zwrong.items():
+        for zc, m in (('upper-triangular', nup), ('lower-triangular', nlow), ('other-zeros', noth), ('full', nfull)):
+            rec.floor(f'hostile:{ep}:axis-wrap-wrong:{zc}', m)
+    for ep in ('dvect', 'dmag'):
+        for pbc in GEN.PBCS:
+            pn = GEN.pbc_name(pbc)
+            if pbc[0] or pbc[1]:                 # upper-triangular: a or b (the tilted vectors) periodic
+                rec.floor(f'hostile:{ep}:axis-wrap-wrong:upper-triangular:pbc={pn}', 12)
+            if pbc[1] or pbc[2]:                 # lower-triangular: b or c periodic
+                rec.floor(f'hostile:{ep}:axis-wrap-wrong:lower-triangular:pbc={pn}', 300)
+            if any(pbc):
+                rec.floor(f'hostile:{ep}:axis-wrap-wrong:other-zeros:pbc={pn}', 200)
     rec.floor('refused:dvect:mismatch', 50)
     rec.floor('refused:dmag:mismatch', 50)
     rec.floor('refused:System.dvect:mismatch', 20)
